@@ -63,7 +63,7 @@ def run(tier, selftest):
     fresh = build_fresh()
     res = vlib.tlc("MC_ParserCases", workers=8, coverage=False, timeout=900)
     cases = list(res.prints("CASE"))
-    sel = c04.select(cases, tier, vlib.seed() + 20) + [c for c in cases if c["k"] in ("value", "multi")]
+    sel = c04.select(cases, tier, vlib.seed() + 20) + [c for c in cases if c["k"] == "multi"]
     docs, meta = [], []
     for c in sel:
         t = pc.concretise(c)
